@@ -65,6 +65,9 @@ func fromText(text string) (*gram.Grammar, error) {
 			return gram.State(), nil
 		case "Predicate":
 			s := strings.TrimSpace(n.S)
+			// spelling variants of the printer: a neutral operand around the predicate
+			s = strings.TrimPrefix(strings.TrimPrefix(s, "false || "), "true && ")
+			s = strings.TrimSuffix(strings.TrimSuffix(s, " || false"), " && true")
 			switch {
 			case s == "true":
 				return gram.Pred(gram.PTrue, 0), nil
